@@ -104,7 +104,7 @@ CHECKS = {
    category="model_checking", design_ref="DESIGN.md §5 C10",
    technique="exhaustive enumeration of short inputs over structural alphabets for every decoder under a lattice of configurations (depth limit × allocation budget × strict/relaxed × prealloc cap × links × stream mode × target prototype), depth bombs through a depth-observing assembler proxy, systematic hostile claimed lengths in an address-space-limited single-goroutine worker with allocation accounting, exhaustive small selector-spec trees compiled and walked, and every short path string",
    text="Every input of the bounded spaces must yield a result or an error without panicking, within the watchdog and the address-space limit; observed nesting never exceeds MaxDepth and the limit is exact; TotalAlloc stays below 512·(budget+len)+256 KiB whatever length a head claims; every selector that compiles is walked to completion over every small graph; path parsing never panics.",
-   note="Typed decode targets: the reflection binding's type-level and representation-level builders of every family root type, fed C09's input trees (conforming and every local mutation) and every proper prefix of the conforming encodings through all four structured decoders; generated builders as decode targets are exercised by C09/C13's dag-cbor route. The allocation bound constants are generous (observed worst ratio ≈ 0.02): they catch claimed-length-driven allocation, not small constant-factor changes."),
+   note="Typed decode targets: the reflection binding's type-level and representation-level builders of every family root type, fed C09's input trees (conforming and every local mutation) and every proper prefix of the conforming encodings through all four structured decoders; the generated builders get the same inputs in a worker of the typed binary (built from the working tree's generator). The allocation bound constants are generous (observed worst ratio ≈ 0.02): they catch claimed-length-driven allocation, not small constant-factor changes."),
 }
 
 NOT_YET = "check not built yet in this round (planned in DESIGN.md §5; will be claimed when its explorer exists)"
